@@ -79,6 +79,11 @@ class ConfigNodeMeta(NamespaceableMeta):
                             del kwargs[arg_name]
                             continue
                         setattr(value, '_' + arg_name, kwargs[arg_name])
+                        if arg_name == 'priority' and '_children' in value.__dict__:
+                            # a pre-built subtree: the priority applies to everything below it, like it does when
+                            # the children are constructed from raw values (see ComposedNode.__init__)
+                            for descendant in value.ayns.nodes():
+                                descendant._priority = kwargs[arg_name]
                 if any(k.startswith('implicit_') for k in kwargs.keys()):
                     value._propagate_implicit_values()
 
